@@ -6,7 +6,7 @@
    result and the exact change of the stored key set (drift only). *)
 EXTENDS KKeys, Sequences, Json, IOUtils
 Rec == ndJsonDeserialize(IOEnv.TRACE)
-VARIABLES l, cur, ever
+VARIABLES l, cur, ever, restarted   \* restarted: servers restarted (reload) since the reset
 
 Srvs == {"A", "B"}
 Objs == {"dom", "ko"}
@@ -55,7 +55,7 @@ L1StateOk(r) ==
   /\ (r.a = "repl" /\ r.res = "ok") =>
         \A o \in Objs : L1NoUnrevoke(RevokedIn(Keys(cur, r.from, o)), Keys(r.st, r.to, o))
 
-Init == l = 1 /\ cur = <<>> /\ ever = EmptyEver
+Init == l = 1 /\ cur = <<>> /\ ever = EmptyEver /\ restarted = {}
 Next ==
   /\ l <= Len(Rec)
   /\ l' = l + 1
@@ -64,7 +64,8 @@ Next ==
      /\ ever' = IF r.a = "reset" THEN [s \in Srvs |-> [o \in Objs |-> RevokedIn(Keys(r.st, s, o))]]
                 ELSE IF Has(r, "st") THEN [s \in Srvs |-> [o \in Objs |-> ever[s][o] \cup RevokedIn(Keys(r.st, s, o))]]
                 ELSE ever
-Spec == Init /\ [][Next]_<<l, cur, ever>>
+     /\ restarted' = IF r.a = "reset" THEN {} ELSE IF r.a = "reload" THEN restarted \cup {r.srv} ELSE restarted
+Spec == Init /\ [][Next]_<<l, cur, ever, restarted>>
 
 JudgeLine(r) ==
   CASE r.a = "reset" -> TRUE
@@ -81,7 +82,8 @@ JudgeLine(r) ==
                      (IF r.tk.kid \in ev THEN "revoked-key-accepted" ELSE "unrevoked-key-rejected") \o " u=" \o r.tk.u>>))
          /\ ((IF r.res = "ok" THEN "ok" ELSE "err") = L2Verify(keys, r.tk.kid) \/ PrintT(<<"L2DRIFT", "C34", l>>))
     [] Has(r, "st") ->
-         /\ (L1StateOk(r) \/ PrintT(<<"L1FAIL", "C34", l, "unrevoked-by-" \o r.a>>))
+         /\ (L1StateOk(r) \/ PrintT(<<"L1FAIL", "C34", l, "unrevoked-by-" \o r.a \o
+                 (IF r.a = "repl" THEN (IF r.from \in restarted THEN " src-restarted=1" ELSE " src-restarted=0") ELSE "")>>))
          /\ (L2StateOk(r) \/ PrintT(<<"L2DRIFT", "C34", l>>))
     [] OTHER -> TRUE
 
